@@ -22,7 +22,7 @@ META = {
         "template and pending sub-chain objects; kind=paren: ALL parenthesisations for "
         "2-7 elements x 3 tail forms (exhaustive); kind=eager: sequences of template calls with valid and "
         "invalid argument lists against generated and shipped classes, each call judged by the binding model; "
-        "kind=shipped: pipelines of the shipped controllers/decorators/composites vs hand nesting. "
+        "kind=shipped: pipelines of the shipped controllers/decorators/composites vs hand nesting; kind=long: chains of 1200-2500 elements (left- and right-grouped, pool instance or template as tail). "
         "Non-trivial = chain of >= 3 elements or an argument list with >= 1 argument; distinct by content."
     ),
     "assumptions": [
@@ -42,6 +42,7 @@ def plan(tier, seed):
     for s in specs:
         s["shard"] = "%s-%s" % (s["kind"], s["shard"])
     specs.append(dict(seed=seed, shard="paren", n=1, kind="paren", max_n=8 if big else 7))
+    specs.append(dict(seed=seed, shard="long", total=12 if big else 4, n=12 if big else 4, kind="long"))
     return specs
 
 
@@ -652,8 +653,8 @@ def run_shipped(case, result):
     return problems
 
 
-GEN = {"chain": gen_chain, "eager": gen_eager, "shipped": gen_shipped}
-EXE = {"chain": run_chain, "eager": run_eager, "shipped": run_shipped}
+GEN = {"chain": gen_chain, "eager": gen_eager, "shipped": gen_shipped, "long": None}
+EXE = {"chain": run_chain, "eager": run_eager, "shipped": run_shipped, "long": None}
 
 
 def nontrivial(case):
@@ -662,6 +663,58 @@ def nontrivial(case):
     if case.get("kind") == "eager":
         return any(pos or kw for pos, kw in case["calls"])
     return True
+
+
+def gen_long(rnd, spec):
+    return {"kind": "long", "n": rnd.choice([1200, 1800, 2500]), "tail": rnd.choice(["instance", "template"]),
+            "grouping": rnd.choice(["left", "left", "right"])}
+
+
+def run_long(case, result):
+    """A very long chain: as many elements as a big site may have decorators - far beyond Python's recursion limit."""
+    simple = {"pos": [["p0", True]], "varargs": False, "kwonly": [], "varkw": False}
+    deco = make_class("decorator", simple)
+    ctrl = make_class("controller", simple)
+    pool_cls = make_class("pool", simple)
+    n = case["n"]
+    del LOG[:]
+    try:
+        templates = [ctrl.s(p0=0)] + [deco.s(p0=i) for i in range(1, n - 1)]
+        tail = pool_cls(p0=n - 1) if case["tail"] == "instance" else pool_cls.s(p0=n - 1)
+        if case["tail"] == "instance":
+            del LOG[:]  # the pool instance exists already: it is not constructed by the chain
+        if case["grouping"] == "left":
+            chain = templates[0]
+            for t in templates[1:]:
+                chain = chain >> t
+            head = chain >> tail
+        else:
+            bound = tail
+            head = None
+            for t in reversed(templates):
+                bound = t >> bound
+            head = bound
+    except RecursionError as err:
+        return [("a chain of %d elements (%s-grouped, tail %s) cannot be built: %r - nesting the constructors by hand in a loop works" % (n, case["grouping"], case["tail"], err), None)]
+    except Exception as err:  # noqa: B902
+        return [("building a chain of %d elements raised %r" % (n, err), None)]
+    result.count("long_chains_checked")
+    problems = []
+    # walk the pipeline: head, then target by target
+    seen, obj = [], head
+    while obj is not None and len(seen) <= n:
+        seen.append(obj)
+        obj = getattr(obj, "target", None)
+    values = [o.bound.get("p0") for o in seen]
+    if values != list(range(n)):
+        problems.append(("the pipeline built from %d elements has %d objects; first arguments out of order: %r..." % (n, len(seen), [v for i, v in enumerate(values) if v != i][:5]), None))
+    want_log = n if case["tail"] == "template" else n - 1
+    if len(LOG) != want_log:
+        problems.append(("%d constructions for a chain of %d elements (tail %s)" % (len(LOG), n, case["tail"]), None))
+    elif case["grouping"] == "left" and [o.bound.get("p0") for o in LOG] != list(range(n - 1, -1, -1))[(0 if case["tail"] == "template" else 1):]:
+        problems.append(("the %d elements were not constructed last to first" % n, None))
+    del LOG[:]
+    return problems
 
 
 def run_shard(spec):
@@ -679,6 +732,8 @@ def run_shard(spec):
             result.evaluations += result.counters.get("parenthesisations_exhaustive", 0)
             for what, mech in problems:
                 result.violation(what, case, mech, spec=spec, case_id=0)
+        elif spec["kind"] == "long":
+            core.drive(PID, spec, gen_long, run_long, result, nontrivial=lambda case: True)
         else:
             core.drive(PID, spec, GEN[spec["kind"]], EXE[spec["kind"]], result, nontrivial=nontrivial)
     finally:
@@ -690,7 +745,7 @@ def run_shard(spec):
 def finish(total, tier):
     for name in ("chains_checked", "chains_rebuilt_from_reused_templates", "chains_tail_instance", "chains_tail_template", "chains_tail_curried",
                  "parenthesisations_exhaustive", "template_calls_checked", "calls_bindable", "calls_unbindable",
-                 "shipped_chains_checked", "eager_cases_with_short_lived_class", "eager_cases_with_plain_subclass", "eager_cases_with_plain_subclass_of_service_class"):
+                 "shipped_chains_checked", "long_chains_checked", "eager_cases_with_short_lived_class", "eager_cases_with_plain_subclass", "eager_cases_with_plain_subclass_of_service_class"):
         if not total.counters.get(name) and not total.violations:
             total.inconc("monitor never observed: " + name)
 
